@@ -818,6 +818,24 @@ func witnesses() []witness {
 			{User: "user:a", Type: "doc", Rel: "owner", Chunk: 100, Procs: 3, Buf: 128, Fault: true},
 			{User: "user:a", Type: "doc", Rel: "allowed", Chunk: 2, Procs: 1, Buf: 1, Fault: true}}})
 	}
+	// parent types whose names are prefixes of one another, with different conditions on the
+	// tupleset restrictions (the pipeline pushes the restriction's condition list to the datastore)
+	out = append(out, witness{&scen.Scenario{Shape: "fixed-prefix-types", Conds: []string{"c1"}, ReqCtx: map[string]any{"x": 1},
+		Types: []scen.TypeDef{user,
+			{Name: "folder", Rels: []scen.RelDef{{Name: "viewer", RW: scen.This(), Restr: []scen.Restr{scen.RObj("user")}}}},
+			{Name: "folderx", Rels: []scen.RelDef{{Name: "viewer", RW: scen.This(), Restr: []scen.Restr{scen.RObj("user")}}}},
+			{Name: "doc", Rels: []scen.RelDef{
+				{Name: "parent", RW: scen.This(), Restr: []scen.Restr{scen.RObj("folder"), scen.RObj("folderx").With("c1")}},
+				{Name: "viewer", RW: scen.TTU("parent", "viewer")},
+			}}}, Tuples: []scen.Tuple{
+			{Obj: "folder:1", Rel: "viewer", User: "user:a"},
+			{Obj: "folderx:1", Rel: "viewer", User: "user:a"},
+			{Obj: "folderx:2", Rel: "viewer", User: "user:b"},
+			{Obj: "doc:1", Rel: "parent", User: "folder:1"},
+			{Obj: "doc:2", Rel: "parent", User: "folderx:1", Cond: "c1", Ctx: map[string]any{"x": 1}},
+			{Obj: "doc:3", Rel: "parent", User: "folderx:1", Cond: "c1", Ctx: map[string]any{"x": -1}},
+			{Obj: "doc:4", Rel: "parent", User: "folderx:2", Cond: "c1"},
+		}}, []Req{dflt("user:a", "doc", "viewer"), dflt("user:b", "doc", "viewer")}})
 	// a batch of confirming Checks completing together against small limits (classic engine)
 	{
 		var ts []scen.Tuple
